@@ -1,6 +1,7 @@
 package main
 
 import (
+	"time"
 	"fmt"
 	"go/ast"
 	"go/token"
@@ -79,6 +80,12 @@ func (x *Exec) execBlock(st *State, stmts []ast.Stmt) []outcome {
 }
 
 func (x *Exec) execStmt(st *State, s ast.Stmt) []outcome {
+	// analysis budget: a function whose symbolic execution does not finish in reasonable time (for
+	// example a long constant-trip loop without invariant inside an inlined helper) is UNDECIDED
+	x.steps++
+	if x.steps&1023 == 0 && !x.started.IsZero() && time.Since(x.started) > 240*time.Second {
+		unsupported("%s: the symbolic execution of this function exceeded its time budget (240 s)", x.pos(s))
+	}
 	e := x.env(st)
 	e.where = x.pos(s)
 	switch n := s.(type) {
@@ -123,7 +130,7 @@ func (x *Exec) execStmt(st *State, s ast.Stmt) []outcome {
 				continue
 			}
 			for i, nm := range vs.Names {
-				v := e.expr(vs.Values[i])
+				v := x.exprOrOpaque(e, vs.Values[i], nm)
 				x.assignIdent(e, nm, v, true)
 			}
 		}
@@ -167,11 +174,61 @@ func (x *Exec) execStmt(st *State, s ast.Stmt) []outcome {
 		}
 	case *ast.LabeledStmt:
 		return x.labeled(st, n)
-	case *ast.GoStmt, *ast.SelectStmt, *ast.SendStmt, *ast.DeferStmt:
+	case *ast.GoStmt:
+		if x.C != nil && x.C.Prefix && len(x.frames) == 1 {
+			x.goStmtPrefix(st, n)
+			return []outcome{{kind: oNormal, st: st}}
+		}
+		unsupported("%s: %T is outside the supported subset", x.pos(s), s)
+	case *ast.SelectStmt, *ast.SendStmt, *ast.DeferStmt:
 		unsupported("%s: %T is outside the supported subset", x.pos(s), s)
 	}
 	unsupported("%s: statement %T", x.pos(s), s)
 	return nil
+}
+
+// exprOrOpaque: in prefix mode an initialiser outside the supported subset (a channel, a sync
+// primitive) gives an opaque value instead of stopping the analysis.
+func (x *Exec) exprOrOpaque(e *Env, ex ast.Expr, nm *ast.Ident) (v Value) {
+	if x.C == nil || !x.C.Prefix || len(x.frames) != 1 {
+		return e.expr(ex)
+	}
+	defer func() {
+		if r := recover(); r != nil {
+			if _, ok := r.(*UnsupportedError); ok {
+				var t types.Type
+				if o := e.info().Defs[nm]; o != nil {
+					t = o.Type()
+				}
+				v = AbsV{x.fresh("opaque."+nm.Name, UnS("Opaque")), t}
+				return
+			}
+			panic(r)
+		}
+	}()
+	return e.expr(ex)
+}
+
+// goStmtPrefix: a goroutine launch in prefix mode is skipped; the scalar variables its function literal
+// mentions are unknown from here on (it may write them at any time).
+func (x *Exec) goStmtPrefix(st *State, n *ast.GoStmt) {
+	e := x.env(st)
+	ast.Inspect(n.Call, func(m ast.Node) bool {
+		id, ok := m.(*ast.Ident)
+		if !ok {
+			return true
+		}
+		o := e.info().Uses[id]
+		if o == nil {
+			return true
+		}
+		if cur, ok := st.vars[o]; ok {
+			if sc, isS := cur.(Scalar); isS && sc.Typ != nil {
+				st.vars[o] = x.havoc(e, sc.Typ, o.Name()+".shared")
+			}
+		}
+		return true
+	})
 }
 
 func (x *Exec) labeled(st *State, n *ast.LabeledStmt) []outcome {
